@@ -303,3 +303,54 @@ func OnceFunc(f func()) func() {
 	var o Once
 	return func() { o.Do(f) }
 }
+
+// OnceValue and OnceValues follow the sync functions of the same name.
+func OnceValue[T any](f func() T) func() T {
+	var o Once
+	var v T
+	return func() T {
+		o.Do(func() { v = f() })
+		return v
+	}
+}
+
+func OnceValues[T1, T2 any](f func() (T1, T2)) func() (T1, T2) {
+	var o Once
+	var v1 T1
+	var v2 T2
+	return func() (T1, T2) {
+		o.Do(func() { v1, v2 = f() })
+		return v1, v2
+	}
+}
+
+// Pool is a deterministic stand-in for sync.Pool: a LIFO free list that never drops anything, so that an object
+// put back in a dirty state is handed to the very next Get (sync.Pool allows that; the real one does it per P).
+type Pool struct {
+	New   func() any
+	mu    realMutex
+	items []any
+}
+
+func (p *Pool) Get() any {
+	p.mu.Lock()
+	defer p.mu.Unlock()
+	if n := len(p.items); n > 0 {
+		x := p.items[n-1]
+		p.items = p.items[:n-1]
+		return x
+	}
+	if p.New != nil {
+		return p.New()
+	}
+	return nil
+}
+
+func (p *Pool) Put(x any) {
+	if x == nil {
+		return
+	}
+	p.mu.Lock()
+	p.items = append(p.items, x)
+	p.mu.Unlock()
+}
